@@ -88,8 +88,8 @@ Lemma rendererr_quiet s s' :
   step s CT_RENDERERR = Some s' -> PendIdle s -> Quiet s' /\ errored s' = true /\ cancelled s' = true /\ outframes s' = outframes s.
 Proof.
   unfold step, Quiet. intros H P. destruct (ph s) eqn:E; try discriminate.
-  - destruct (ct_exited s); [discriminate|]. inversion H; subst. simp_state. auto 10.
-  - inversion H; subst. simp_state.
+  - destruct (ct_exited s || errored s); [discriminate|]. inversion H; subst. simp_state. auto 10.
+  - destruct (errored s); [discriminate|]. inversion H; subst. simp_state.
     assert (out_pending s = false) by (destruct (out_pending s) eqn:O; [specialize (P O); congruence|reflexivity]).
     auto 10.
 Qed.
@@ -127,12 +127,18 @@ Proof.
   all: try (leave_flush; simp_state; assumption).
 Qed.
 
-(* the error is reported (CT_RENDERERR accepted) at most once *)
+(* the error is reported (CT_RENDERERR accepted) at most once: after it, in every continuation, a second report is refused *)
 Theorem error_reported_once s s1 evs s2 :
-  PendIdle s -> step s CT_RENDERERR = Some s1 -> run s1 evs = Some s2 -> step s2 CT_RENDERERR <> None -> ct_exited s2 = false /\ ph s2 = Idle.
+  step s CT_RENDERERR = Some s1 -> run s1 evs = Some s2 -> step s2 CT_RENDERERR = None.
 Proof.
-  intros P E R N. destruct (rendererr_quiet _ _ E P) as (Q & _). destruct (quiet_forever _ _ _ R Q) as ((Ph & _ & _) & _).
-  split; [|assumption]. unfold step in N. rewrite Ph in N. destruct (ct_exited s2); [congruence|reflexivity].
+  intros E R.
+  assert (Er : errored s1 = true).
+  { unfold step in E. destruct (ph s); try discriminate; destruct (_ : bool); try discriminate; inversion E; reflexivity. }
+  assert (Er2 : errored s2 = true).
+  { clear E. revert s1 Er R. induction evs as [|e evs IH]; intros s1 Er; unfold run; cbn.
+    - intros E; inversion E; subst; assumption.
+    - destruct (step s1 e) as [s3|] eqn:E; [|discriminate]. intros R. apply (IH s3); [|exact R]. eapply errored_mono; eauto. }
+  unfold step. rewrite Er2. destruct (ph s2); try reflexivity. rewrite orb_true_r. reflexivity.
 Qed.
 
 (* the heap manager is told to end at most once *)
